@@ -20,10 +20,37 @@ BOOL == {TRUE, FALSE}
 \* forge: HOW a quote fails to be "authentically signed by its claimed node" when sigs = FALSE --
 \*   "sig": it carries the claimed node's key and a signature made with another key;
 \*   "key": it is a self-consistent quote of ANOTHER node (own key, own valid signature) listed under the claimed node
-Pays == {p \in [sigs : BOOL, self : BOOL, close : BOOL, fresh : BOOL, chain : BOOL, addr : BOOL, forge : {"sig", "key"}] :
-            p.sigs => p.forge = "sig"}
-OkPay == [sigs |-> TRUE, self |-> TRUE, close |-> TRUE, fresh |-> TRUE, chain |-> TRUE, addr |-> TRUE, forge |-> "sig"]
+\* mode / pos / selfIdx / shape / edge: see NodePut.tla (PayBad) and nodeworld.rs (PayX); the 2^6 enumeration uses the plain
+\* layout (three payees, this node's quote first, contract all-valid or all-invalid)
+Ext(p) == p @@ [mode |-> IF p.chain THEN "ok" ELSE "allBad", pos |-> "std", selfIdx |-> 0, shape |-> "std", edge |-> "std"]
+Pays == {Ext(p) : p \in {q \in [sigs : BOOL, self : BOOL, close : BOOL, fresh : BOOL, chain : BOOL, addr : BOOL, forge : {"sig", "key"}] :
+            q.sigs => q.forge = "sig"}}
+OkPay == Ext([sigs |-> TRUE, self |-> TRUE, close |-> TRUE, fresh |-> TRUE, chain |-> TRUE, addr |-> TRUE, forge |-> "sig"])
 NoPay == "none"
+
+\* ---- one condition at a time, in every position of the proof
+\* the contract's answer per quote, and the contract failing; this node's quote first or last
+ChainPays == {[OkPay EXCEPT !.mode = m, !.chain = (m \in OpenModes), !.selfIdx = i] :
+                 m \in {"ownBadOnly", "otherBadOnly", "ownAmountZero", "jsonrpcError", "http500", "emptyResult", "shortData", "closeSocket"}, i \in {0, 2}}
+        \cup {[OkPay EXCEPT !.mode = m, !.chain = (m = "ok"), !.selfIdx = i] : m \in {"ok", "allBad"}, i \in {1, 2}}
+\* the expired / forged / far quote is this node's own, the first or the last other payee's; this node's quote at index 0, 1, 2
+PosPays == {[OkPay EXCEPT !.fresh = FALSE, !.pos = po, !.selfIdx = i] : po \in {"own", "otherFirst", "otherLast"}, i \in 0..2}
+      \cup {[OkPay EXCEPT !.sigs = FALSE, !.forge = f, !.pos = po, !.selfIdx = i] : f \in {"sig", "key"}, po \in {"own", "otherFirst", "otherLast"}, i \in 0..2}
+      \cup {[OkPay EXCEPT !.close = FALSE, !.pos = po, !.selfIdx = i] : po \in {"otherFirst", "otherLast"}, i \in 0..2}
+      \cup {[OkPay EXCEPT !.addr = FALSE, !.selfIdx = i] : i \in 1..2}
+\* the farthest payee at the edge of the K closest peers: the 19th closest known peer is close, the 20th and 21st are not
+EdgePays == {[OkPay EXCEPT !.edge = "in19", !.selfIdx = i] : i \in {0, 2}}
+       \cup {[OkPay EXCEPT !.edge = e, !.close = FALSE, !.selfIdx = i] : e \in {"out20", "out21"}, i \in {0, 2}}
+\* a payee listed twice with an authentic and a forged quote (either order); two quotes of this node, one of them for another
+\* address or expired (either order); proofs with 1, 2, 4, 5 quotes (this node's first / last)
+ShapePays == {[OkPay EXCEPT !.shape = sh, !.sigs = FALSE, !.forge = f, !.selfIdx = i] : sh \in {"dupAuthFirst", "dupForgedFirst"}, f \in {"sig", "key"}, i \in {0, 2}}
+        \cup {[OkPay EXCEPT !.shape = sh, !.addr = FALSE, !.selfIdx = i] : sh \in {"twoOwnGoodFirst", "twoOwnBadFirst"}, i \in {0, 1}}
+        \cup {[OkPay EXCEPT !.shape = sh, !.fresh = FALSE, !.selfIdx = i] : sh \in {"twoOwnGoodFirst", "twoOwnBadFirst"}, i \in {0, 1}}
+        \cup {[OkPay EXCEPT !.shape = c[1], !.selfIdx = c[2], !.mode = m, !.chain = (m = "ok")] :
+                  c \in {<<"n1", 0>>, <<"n2", 0>>, <<"n2", 1>>, <<"n4", 0>>, <<"n4", 3>>, <<"n5", 0>>, <<"n5", 4>>}, m \in {"ok", "allBad"}}
+        \cup {[OkPay EXCEPT !.shape = "n5", !.selfIdx = 4, !.fresh = FALSE, !.pos = "own"], [OkPay EXCEPT !.shape = "n4", !.selfIdx = 3, !.addr = FALSE],
+               [OkPay EXCEPT !.shape = "n5", !.selfIdx = 4, !.sigs = FALSE, !.pos = "otherLast"]}
+ExtPays == ChainPays \cup PosPays \cup EdgePays \cup ShapePays
 
 D0 == [path |-> "client", kind |-> "Chunk", keyOk |-> TRUE, heldIdx |-> FALSE, pay |-> NoPay, parse |-> "ok",
        pad |-> [c |-> 1, sig |-> "ok", content |-> 1], txs |-> {[id |-> 1, ok |-> TRUE]}, ops |-> {[id |-> 1, ok |-> TRUE]}]
@@ -38,6 +65,32 @@ Probe(kind) == [D0 EXCEPT !.kind = kind, !.pad = [c |-> 2, sig |-> "ok", content
 
 C03Cases == {<<held, [Probe(k) EXCEPT !.pay = p, !.keyOk = ko]>> : held \in BOOL, k \in PaidKinds, p \in Pays, ko \in BOOL}
        \cup {<<held, [Probe(k) EXCEPT !.keyOk = ko, !.path = pa]>> : held \in BOOL, k \in UnpaidKinds, ko \in BOOL, pa \in {"client", "repl"}}
+\* (the payment check is one function shared by the four paid kinds; what each kind does with its verdict is covered by
+\* the 2^6 enumeration: every layout on the two kinds that treat the verdict differently, the contract's answers on all)
+ExtCases == {<<FALSE, [Probe(k) EXCEPT !.pay = p]>> : k \in {"ChunkWithPayment", "RegisterWithPayment"}, p \in ExtPays}
+       \cup {<<FALSE, [Probe(k) EXCEPT !.pay = p]>> : k \in {"ScratchpadWithPayment", "TransactionWithPayment"}, p \in ChainPays}
+\* the whole way in from the network: RecordStore::put, then validation of the record its event carries ("kadput+validate",
+\* judged like "client")
+OneBadPays == {[OkPay EXCEPT !.sigs = FALSE], [OkPay EXCEPT !.self = FALSE], [OkPay EXCEPT !.close = FALSE], [OkPay EXCEPT !.fresh = FALSE],
+               [OkPay EXCEPT !.chain = FALSE, !.mode = "allBad"], [OkPay EXCEPT !.addr = FALSE]}
+KadValidateCases == {<<held, [Probe(k) EXCEPT !.path = "kadput+validate", !.pay = p]>> : held \in BOOL, k \in PaidKinds, p \in {OkPay} \cup OneBadPays}
+               \cup {<<held, [Probe(k) EXCEPT !.path = "kadput+validate", !.pay = OkPay, !.keyOk = FALSE]>> : held \in BOOL, k \in PaidKinds}
+               \cup {<<held, [Probe(k) EXCEPT !.path = "kadput+validate", !.keyOk = ko]>> : held \in BOOL, k \in UnpaidKinds, ko \in BOOL}
+               \cup {<<held, [Probe(k) EXCEPT !.path = "kadput+validate", !.parse = ps, !.pay = IF k \in PaidKinds THEN OkPay ELSE NoPay]>> :
+                        held \in BOOL, k \in PaidKinds \cup UnpaidKinds, ps \in {"trunc", "unknownkind", "garbage"}}
+\* the store's size limit, both sides, on the kad entry point
+SizeCases == {<<held, [Probe(k) EXCEPT !.path = "kadput", !.parse = ps, !.pay = IF k \in PaidKinds THEN OkPay ELSE NoPay]>> :
+                 held \in BOOL, k \in PaidKinds \cup UnpaidKinds, ps \in {"maxm1", "max"}}
+\* entries changed after the owner signed them (ids 7..11), a validly signed transaction with parents and outputs (id 6);
+\* a scratchpad without signature, and one whose data was swapped under a valid signature
+TamperTxCases == {<<held, [Probe(k) EXCEPT !.path = pa, !.txs = t, !.pay = IF k \in PaidKinds THEN OkPay ELSE NoPay]>> :
+                     held \in BOOL, k \in {"Transaction", "TransactionWithPayment"}, pa \in {"client", "repl"},
+                     t \in {{[id |-> i, ok |-> (i = 6)]} : i \in 6..11}}
+            \cup {<<held, [Probe("Transaction") EXCEPT !.path = "repl", !.txs = t]>> : held \in BOOL,
+                     t \in {{[id |-> 2, ok |-> TRUE], [id |-> 6, ok |-> TRUE], [id |-> 7, ok |-> FALSE]},
+                            {[id |-> 6, ok |-> TRUE], [id |-> 9, ok |-> FALSE], [id |-> 11, ok |-> FALSE]}}}
+TamperPadCases == {<<held, [Probe(k) EXCEPT !.path = pa, !.pad = [c |-> 2, sig |-> sg, content |-> 3], !.pay = IF k \in PaidKinds THEN OkPay ELSE NoPay]>> :
+                      held \in BOOL, k \in {"Scratchpad", "ScratchpadWithPayment"}, pa \in {"client", "repl"}, sg \in {"none", "swapped"}}
 ParseCases == {<<held, [Probe(k) EXCEPT !.parse = ps, !.path = pa, !.pay = IF k \in PaidKinds THEN OkPay ELSE NoPay]>> :
                   held \in BOOL, k \in PaidKinds \cup UnpaidKinds, ps \in {"trunc", "header1", "unknownkind", "oversize", "garbage"},
                   pa \in {"client", "repl", "kadput"}}
@@ -67,7 +120,10 @@ ForeignTxCases == {<<held, [Probe("Transaction") EXCEPT !.path = "repl", !.txs =
                                             \* several transactions of ONE foreign owner in a row (ids 4 and 5)
                                             {[id |-> 4, ok |-> FALSE], [id |-> 5, ok |-> FALSE]},
                                             {[id |-> 2, ok |-> TRUE], [id |-> 4, ok |-> FALSE], [id |-> 5, ok |-> FALSE]}}}
-SingleScenarios == {IF c[1] THEN <<Setup(c[2].kind), c[2]>> ELSE <<c[2]>> : c \in C03Cases \cup ParseCases \cup ForeignTxCases}
+Feasible1(c) == Feasible0(c[2]) /\ (c[2].kind = "TransactionWithPayment" => Cardinality(c[2].txs) = 1)
+SingleScenarios == {IF c[1] THEN <<Setup(c[2].kind), c[2]>> ELSE <<c[2]>> : c \in C03Cases \cup ParseCases \cup ForeignTxCases \cup ExtCases
+                                                                              \cup KadValidateCases \cup SizeCases
+                                                                              \cup {c \in TamperTxCases \cup TamperPadCases : Feasible1(c)}}
               \cup {c \in VictimCases : Feasible0(c[2])}
               \cup {c \in CrossCases : Feasible0(c[2]) /\ Base(c[1].kind) # Base(c[2].kind)}
               \cup {c \in AltBaseCases : Feasible0(c[2])}
@@ -100,7 +156,7 @@ Deliver(d0) == LET d == [d0 EXCEPT !.heldIdx = Held(content)] IN
               \E a \in Allowed(d, content) :
                  LET x == [d |-> d, res |-> IF a = content THEN "Err" ELSE "Ok", beforeD |-> content, afterD |-> a,
                            beforeP |-> content, afterP |-> a, gained |-> {}, lost |-> {}, derivedOK |-> TRUE,
-                           contentOK |-> TRUE, unverified |-> 0] IN
+                           contentOK |-> TRUE, unverified |-> 0, unvSame |-> TRUE, viaKad |-> FALSE, exp |-> <<>>, calls |-> <<>>] IN
                  /\ content' = a
                  /\ hist' = Append(hist, d)
                  /\ bad' = {c \in {"C07_Applied", "C07_ScratchpadMonotone", "C07_GrowOnly", "C07_OnlyValid"} : ~Holds(c, x)}
@@ -121,7 +177,9 @@ ToJsonD(d) == [path |-> d.path, kind |-> d.kind, key |-> IF d.keyOk THEN "derive
                parse |-> IF d.parse \in {"victim", "collide", "altbase"} THEN "ok" ELSE d.parse, collide |-> d.parse = "collide",
                base |-> IF d.parse = "altbase" THEN "alt" ELSE "std",
                pay |-> d.pay, c |-> d.pad.c, sig |-> d.pad.sig, content |-> d.pad.content,
-               txs |-> SetToSeq({[id |-> t.id, sig |-> IF t.ok \/ t.id \in {4, 5} THEN "ok" ELSE "bad", owner |-> IF t.id \in {4, 5} THEN "other" ELSE "same"] : t \in d.txs}),
+               txs |-> SetToSeq({[id |-> t.id, sig |-> IF t.ok \/ t.id \in {4, 5} \cup 7..11 THEN "ok" ELSE "bad", owner |-> IF t.id \in {4, 5} THEN "other" ELSE "same",
+                                   variant |-> CASE t.id = 6 -> "rich" [] t.id = 7 -> "tamperOutputs" [] t.id = 8 -> "tamperOutputsAdd" [] t.id = 9 -> "tamperParents"
+                                                 [] t.id = 10 -> "tamperParentsAdd" [] t.id = 11 -> "tamperContent" [] OTHER -> "plain"] : t \in d.txs}),
                ops |-> SetToSeq({[id |-> o.id, sig |-> IF o.ok THEN "ok" ELSE "bad"] : o \in d.ops})]
 ASSUME IF "CASES" \in DOMAIN IOEnv
        THEN ndJsonSerialize(IOEnv.CASES, SetToSeq({[i \in 1..Len(s) |-> ToJsonD(s[i])] : s \in SingleScenarios}))
